@@ -420,6 +420,21 @@ fn write_via_socket(prefixlen: usize, fr: Frame) -> Result<Vec<u8>, String> {
     Ok(fs.get_ref().accepted.clone())
 }
 
+struct ShortSink {
+    out: Vec<u8>,
+    max: usize,
+}
+impl std::io::Write for ShortSink {
+    fn write(&mut self, buf: &[u8]) -> std::io::Result<usize> {
+        let n = buf.len().min(self.max);
+        self.out.extend_from_slice(&buf[..n]);
+        Ok(n)
+    }
+    fn flush(&mut self) -> std::io::Result<()> {
+        Ok(())
+    }
+}
+
 fn run_frame_format(f: &[&str]) -> Result<String, String> {
     // FF id flags opcode mask payload prefixlen
     let h = header_of(f[2], f[3], f[4])?;
@@ -429,6 +444,14 @@ fn run_frame_format(f: &[&str]) -> Result<String, String> {
     let len = fr.len();
     let mut v = Vec::new();
     fr.clone().format(&mut v).map_err(|e| error_s(&e))?;
+    // the same through writers that take at most n bytes per write() call: Frame::format must still emit every byte
+    for n in [1usize, 3, 8] {
+        let mut sink = ShortSink { out: Vec::new(), max: n };
+        fr.clone().format(&mut sink).map_err(|e| error_s(&e))?;
+        if sink.out != v {
+            return Ok(format!("short-write-sink-differs:{}:{}", n, hex(&sink.out)));
+        }
+    }
     let all = write_via_socket(prefixlen, fr)?;
     let mut into = vec![0xEEu8; prefixlen];
     into.extend_from_slice(&all[prefixlen.min(all.len())..]);
@@ -465,8 +488,19 @@ fn run_mask(f: &[&str]) -> Result<String, String> {
         fr.format(&mut v).map_err(|e| error_s(&e))?;
         Ok(hex(&v[hl..]))
     } else if let Some(k) = route.strip_prefix("wr") {
-        let k: usize = k.parse().unwrap();
-        let fr = Frame::from_payload(h, Bytes::from(payload));
+        // wr<k>[o<off>]: the payload handed to the library is a slice starting `off` bytes into its allocation
+        let (k, off): (usize, usize) = match k.split_once('o') {
+            Some((a, b)) => (a.parse().unwrap(), b.parse().unwrap()),
+            None => (k.parse().unwrap(), 0),
+        };
+        let payload = if off > 0 {
+            let mut v = vec![0x77u8; off];
+            v.extend_from_slice(&payload);
+            Bytes::from(v).slice(off..)
+        } else {
+            Bytes::from(payload)
+        };
+        let fr = Frame::from_payload(h, payload);
         let all = write_via_socket(k, fr)?;
         Ok(hex(&all[k + hl..]))
     } else if let Some(k) = route.strip_prefix("rd") {
@@ -882,7 +916,8 @@ fn main() {
         let r = catch_unwind(AssertUnwindSafe(|| -> (String, String) {
             match f[0] {
                 // SI: same as S but uses ops the model does not have (set_config of the inbound limits): implementation only
-                "S" | "SI" => match run_socket(&f) {
+                // SN: same as S, run on the implementation only (inputs too long for the list-based model to be worth evaluating)
+                "S" | "SI" | "SN" => match run_socket(&f) {
                     Ok((m, t)) => (m, t),
                     Err(e) => (line.clone(), format!("bad-case:{e}")),
                 },
